@@ -286,7 +286,7 @@ def run_gitobjs(job):
 
             def fail(clause, note=""):
                 out["fail"].append({"site": f"dulwich/objects.py:{kind}", "clause": clause, "kind": kind, "algo": algo,
-                                    "mode": job["mode"], "src": rec["src"], "note": note[:300], "bytes": rec["bytes"][:2000]})
+                                    "mode": job["mode"], "src": rec["src"], "note": note[:300], "bytes": rec["bytes"][:4000], "record": rec})
             try:
                 o = O.ShaFile.from_raw_string(L.TYPE_NUM[kind], b, object_format=fmt_of(algo))
                 if o.get_id(fmt_of(algo)) != rec["id"].encode():
